@@ -21,17 +21,19 @@ TRUSTED = ("CPython ast",)
 TECHNIQUE = "static analysis: definite-assignment on all paths, dominance/ordering rules on the shared state"
 
 from . import loader_folds as lfold
+from . import io_folds as iof
 
 
 def r1(run, tree):
     run.rule("C15.R1", "definite reset of consulted reader state", "definite assignment over all paths", "", floor=1)
-    lr.check_definite_reset(run, tree)
+    iof.check_reader_initialize(run, tree)
+    lfold.check_load(run, tree)
 
 
 def r2(run, tree):
     run.rule("C15.R2", "per-call re-initialisation of every reader", "path rule", "", floor=10)
-    lr.check_reinitialisation(run, tree)
-    io2.check_descriptor_to_variables(run, tree)
+    iof.check_reader_initialize(run, tree)
+    iof.check_descriptor_to_variables(run, tree)
 
 
 def r3(run, tree):
